@@ -1,5 +1,5 @@
 SPECIFICATION Spec
 CONSTANTS
   PMax = 3
-INVARIANTS Inv_Symmetric Inv_Diagonal Inv_Positive Inv_Monotone Inv_PSD Emit
+INVARIANTS Inv_Symmetric Inv_Diagonal Inv_Positive Inv_Monotone Inv_PSD Inv_HalfExact Emit
 CHECK_DEADLOCK FALSE
